@@ -32,6 +32,14 @@ def generate(dst):
         t2 = t2.replace('target_os = "macos"', "sim_macos")
         changes[f] = {"cfg_lines_dropped": n_cfg, "macos_predicates_renamed": n_mac}
         open(os.path.join(ic, f), "w").write(t2)
+    # the real common.rs (PatchGuard, patch_function, ...) as a second, independent module
+    rc = os.path.join(dst, "src", "realcore")
+    for f in ("common.rs", "linuxapi.rs"):
+        p = os.path.join(core.REPO, "src", "injector_core", f)
+        if os.path.exists(p):
+            t = open(p).read().replace("crate::injector_core::", "crate::realcore::")
+            open(os.path.join(rc, f), "w").write(t)
+            changes["realcore/" + f] = {"module_path_rewritten": t.count("crate::realcore::")}
     nat = os.path.join(core.VERIF, "harness", "native", "src")
     for f in ["out.rs", "rng.rs", "x86.rs"]:
         shutil.copy(os.path.join(nat, f), os.path.join(dst, "src", f))
@@ -41,7 +49,7 @@ def generate(dst):
     return changes
 
 
-EMITTERS = ("amd64", "arm64", "arm")
+EMITTERS = ("amd64", "arm64", "arm", "realcore")
 
 
 def build(variant, profile, need=EMITTERS):
